@@ -205,7 +205,7 @@ def _explained(fid):
     return f
 
 
-for _fid in ("KF3", "KF4", "KF5", "KF6", "KF7", "KF11"):
+for _fid in ("KF3", "KF4", "KF5", "KF6", "KF7", "KF11", "KF12"):
     CLASSIFIERS[_fid] = _explained(_fid)
 
 _kf8_tree, _kf9_tree = CLASSIFIERS["KF8"], CLASSIFIERS["KF9"]
